@@ -238,6 +238,36 @@ class Ctx:
         finally:
             shutil.rmtree(d, ignore_errors=True)
 
+    def run_impl_jobs(self, script: str, jobs: list, key="jobs", timeout=3000, env=None, shards=None) -> list:
+        """Run a list of independent jobs through tools/harness/<script>, sharded over processes.
+        Returns the per-job results in order ({"error":...} for a crashed shard)."""
+        from concurrent.futures import ThreadPoolExecutor
+        n = max(1, min(shards or NPROC, len(jobs)))
+        idx = [list(range(k, len(jobs), n)) for k in range(n)]
+
+        def one(k):
+            d = Path("/var/tmp") / f"fv_{self.pid}_job{k}_{os.getpid()}"
+            shutil.rmtree(d, ignore_errors=True)
+            d.mkdir(parents=True)
+            try:
+                (d / "in.json").write_text(json.dumps({key: [jobs[j] for j in idx[k]]}))
+                r = subprocess.run([PY, str(VERIF / "tools" / "harness" / script), str(d / "in.json"), str(d / "out.json")],
+                                   capture_output=True, text=True, env=impl_env(env), cwd=str(REPO), timeout=timeout)
+                if r.returncode != 0 or not (d / "out.json").exists():
+                    return [{"error": (r.stdout + r.stderr)[-2000:], "kind": "HarnessCrash"}] * len(idx[k])
+                return json.loads((d / "out.json").read_text())["results"]
+            except subprocess.TimeoutExpired:
+                return [{"error": "timeout", "kind": "HarnessTimeout"}] * len(idx[k])
+            finally:
+                shutil.rmtree(d, ignore_errors=True)
+        with ThreadPoolExecutor(max_workers=n) as ex:
+            parts = list(ex.map(one, range(n)))
+        out = [None] * len(jobs)
+        for k in range(n):
+            for j, r in zip(idx[k], parts[k]):
+                out[j] = r
+        return out
+
     # ------------------------------------------------------------------ coverage accounting
     def count(self, key, nontrivial: bool, sample=None):
         self.cov["evaluations"] += 1
